@@ -13,6 +13,87 @@ from .common import Check, MachineryFailure, validate_rows
 from . import c02
 
 
+def _t(k, nm="", v=0, e=None, mods=()):
+    return {"mods": list(mods), "base": {"k": k, "nm": nm, "v": v, "e": e or []}}
+
+
+ARG_ATTRS = {"len({0})": lambda s: s[0] if s else None, "{0}.shape[0]": lambda s: s[0] if s else None,
+             "{0}.shape[-1]": lambda s: s[-1] if s else None, "{0}.ndim": lambda s: len(s),
+             "{0}.size": lambda s: __import__("math").prod(s)}
+
+
+def gen_argref_case(rng):
+    """axes written as f-string expressions over ARRAY arguments ({len(x0)}, {x0.shape[0]}, {x0.ndim}, {x0.size}):
+    only shape information of the argument is read, so tracing must agree with eager"""
+    n = rng.choice([2, 2, 3])
+    names = [f"x{i}" for i in range(n)]
+    shapes = [[rng.randint(1, 3) for _ in range(rng.choice([1, 1, 2]))]]
+    params = [{"nm": names[0], "toks": [_t("ident", "abc"[j]) for j in range(len(shapes[0]))]}]
+    args = {}
+    defs = []
+
+    def argexpr(upto):
+        j = rng.randrange(upto)
+        tmpl = rng.choice(sorted(ARG_ATTRS))
+        key = tmpl.format(names[j])
+        args[key] = ARG_ATTRS[tmpl](shapes[j])
+        defs.append((key, tmpl, j))
+        e = ["a", key]
+        r = rng.random()
+        if r < .4:
+            e = ["+", e, ["i", rng.randint(1, 2)]]
+        elif r < .55 and upto > 1:
+            j2 = rng.randrange(upto)
+            k2 = "len({0})".format(names[j2])
+            args[k2] = shapes[j2][0]
+            defs.append((k2, "len({0})", j2))
+            e = ["+", e, ["a", k2]]
+        elif r < .65:
+            e = ["*", ["i", 2], e]
+        return e
+
+    def val(e):
+        if e[0] == "a":
+            return args[e[1]]
+        if e[0] == "i":
+            return e[1]
+        x, y = val(e[1]), val(e[2])
+        return x + y if e[0] == "+" else x * y
+    for i in range(1, n):
+        e = argexpr(i)
+        toks = [_t("sym", e=e)]
+        sh = [val(e)]
+        if rng.random() < .4:
+            toks.insert(0, _t("ident", "a"))
+            sh.insert(0, shapes[0][0])
+        if rng.random() < .3:
+            sh[rng.randrange(len(sh))] = rng.randint(1, 4)
+        params.append({"nm": names[i], "toks": toks})
+        shapes.append(sh)
+    hasret = rng.random() < .5
+    rettoks, retshape = [], []
+    if hasret:
+        e = argexpr(n)
+        rettoks, retshape = [_t("sym", e=e)], [val(e) if rng.random() < .7 else rng.randint(1, 4)]
+    return {"params": params, "shapes": shapes, "hasret": hasret, "rettoks": rettoks, "retshape": retshape, "args": args,
+            "_argdefs": defs}
+
+
+def gen_argname_case(rng):
+    """a symbolic axis whose free name is NOT a bound axis but is the name of an (array) argument: axis names and
+    argument names are different namespaces, so this cannot be evaluated - in every mode, whatever the values"""
+    nm = rng.choice(["a", "b"])
+    other = "b" if nm == "a" else "a"
+    first = rng.choice([[], [], [_t("ident", other)], [_t("int", v=rng.randint(1, 3))]])
+    sh0 = [rng.randint(1, 3) for _ in first]
+    if first and first[0]["base"]["k"] == "int":
+        sh0 = [first[0]["base"]["v"]]
+    e = rng.choice([["+", ["n", nm], ["i", 1]], ["n", nm], ["*", ["i", 2], ["n", nm]], ["+", ["n", nm], ["n", other]]])
+    e = e if e[0] != "n" else ["+", e, ["i", 0]]
+    params = [{"nm": nm, "toks": first}, {"nm": "x1", "toks": [_t("sym", e=e)]}]
+    return {"params": params, "shapes": [sh0, [rng.choice([1, 1, 2, 3, 4])]], "hasret": False, "rettoks": [], "retshape": [], "args": {}}
+
+
 def worker(args):
     alpha, seed, n, out_path, id0 = args
     from . import calls
@@ -20,12 +101,18 @@ def worker(args):
     k = 0
     with open(out_path, "w") as f:
         while k < n:
-            case = c02.gen_history_case(alpha, rng) if rng.random() < .2 else c02.gen_case(alpha, rng, maxp=3, symp=.4)
+            r = rng.random()
+            case = (c02.gen_history_case(alpha, rng) if r < .2 else gen_argref_case(rng) if r < .4 else
+                    gen_argname_case(rng) if r < .5 else c02.gen_case(alpha, rng, maxp=3, symp=.4))
             # the case, a sibling (one shape changed, other array objects reused), and the case again
             prev = None
             fam = c02.sibling_family(case, rng)
             case.pop("_vary", None)
+            defs = case.pop("_argdefs", None)
             for c in [case] + fam + [json.loads(json.dumps(case))]:
+                c.pop("_argdefs", None)
+                if defs:       # what the argument expressions evaluate to follows the (varied) shapes
+                    c["args"] = {key: ARG_ATTRS[tmpl](c["shapes"][j]) for key, tmpl, j in defs}
                 c["variants"] = calls.run_jax_variants(c, seed=seed + k, prime=prev)
                 prev = case if c is not case else None
                 c["id"] = id0 + k
@@ -65,7 +152,9 @@ def main(tier):
         chk.cov["traces_validated_against_impl"] = nv
         chk.cov["evaluations"] = nv
         chk.cov["distinct_nontrivial"] = rej
-        chk.cov["rule"] = ("random signatures of 1..3 jax.Array parameters (+return); each executed eagerly on two different value "
+        chk.cov["rule"] = ("random signatures of 1..3 jax.Array parameters (+return), incl. axes written as f-string expressions "
+                           "over array arguments ({len(x0)}, {x0.shape[0]}, {x0.ndim}, {x0.size}) and symbolic axes whose free name "
+                           "is an argument's name; each executed eagerly on two different value "
                            "seeds and under jit, eval_shape, vmap (in_axes 0 / -1 / partial), jit(vmap), grad, both checkers; "
                            "non-trivial = rejected cases")
         chk.part("cases", n=n, variants=nv, rejected=rej)
